@@ -270,6 +270,8 @@ def build(lib):
     reg('interp', _interp)
 
     def _mod(it, a, k):
+        if isinstance(a[0], (list, tuple, SList, SMutList)):
+            a = [as_array(it, a[0])] + list(a[1:])          # numpy converts a sequence argument to an array first
         if isinstance(a[1], int) and a[1] == 1 and (isinstance(a[0], SArr) or isinstance(a[0], z3.ArithRef)):
             # np.mod(x, 1) = x - floor(x)  (exact for reals; z3's ToInt is the floor)
             fl = lambda x: to_real(x) - z3.ToReal(z3.ToInt(to_real(x)))
